@@ -109,6 +109,14 @@ def idsVerdict (pre tag : String) (src s e ds impl : String) : Verdict := Id.run
 
 def handle (op : String) (args : List String) (impl : String) : Option Verdict :=
   match op, args with
+  | "evmsigsession", args => some <| Id.run do
+    -- the ids the signing processes RUN under = the ids of the delivery's signed batches, `<messageID>-<batch index>`
+    let some one := Sygma.Drv.C14.handle "exec" args "" | return bad
+    if one.model == "err" then return ⟨"-", impl == "-", "evmsigsession:lookup-error"⟩
+    let sids := ((items one.model ";").map fun it => (it.splitOn "=").headD "").mergeSort (· ≤ ·)
+    let m := joinOr sids ","
+    let distinct := (items impl ",").eraseDups.length == (items impl ",").length
+    return ⟨m, impl == m && distinct, s!"evmsigsession:batches={min sids.length 3}"⟩
   | "subsession", [msgId, statuses] => some <| Id.run do
     let pending := (items statuses ",").any (· == "p")
     -- the Substrate executor signs a delivery under its message id — for every relayer, fresh or not
